@@ -161,6 +161,9 @@ static sqf::runtime::runtime::result execute_do(sqf::runtime::runtime& runtime, 
             if (val.has_value())
             { context_active.push_value(val.value()); }
 
+#ifdef SQFVM_RUNTIME_VERIF
+            if (sqf::runtime::verif::get_hooks().on_frame_popped) { sqf::runtime::verif::get_hooks().on_frame_popped(runtime, val.has_value()); }
+#endif // SQFVM_RUNTIME_VERIF
             // Restart loop-run
             continue;
         }
